@@ -11,6 +11,8 @@ pub mod c13;
 pub mod c14;
 pub mod c15;
 pub mod c17;
+pub mod c19;
+pub mod c19_ffi;
 pub mod c18;
 
 pub fn dispatch(env: &Env) -> i32 {
@@ -27,6 +29,7 @@ pub fn dispatch(env: &Env) -> i32 {
         "C15" => c15::run(env),
         "C17" => c17::run(env),
         "C18" => c18::run(env),
+        "C19" => c19::run(env),
         other => {
             eprintln!("no check for property {other}");
             2
